@@ -36,15 +36,15 @@ Verdict(s, ev) ==
        THEN base \cup PurgeViolations(s, o.keep, t) \cup (IF ev.res = Ok THEN {} ELSE {"result"})
        ELSE LET X == Step(s, o)
                 T == [x \in X |-> [x.st EXCEPT !.idx = s.idx]]
-            IN IF base = {} /\ \E x \in X : x.res = ev.res /\ T[x] = t THEN {}
-               ELSE base
-                    \cup (IF \E x \in X : x.res = ev.res THEN {} ELSE {"result"})
-                    \cup (IF \E x \in X : x.res = ev.res /\ T[x].sel = t.sel THEN {} ELSE {"selected"})
-                    \cup (IF \E x \in X : x.res = ev.res /\ T[x].act = t.act THEN {} ELSE {"active"})
-                    \cup (IF \E x \in X : x.res = ev.res /\ SameVersions(T[x], t) THEN {} ELSE {"versions"})
-                    \cup (IF \E x \in X : x.res = ev.res /\ T[x].files = t.files THEN {} ELSE {"files"})
-                    \cup (IF \E x \in X : x.res = ev.res /\ SameFlags(T[x], t) THEN {} ELSE {"registry-flags"})
-                    \cup {"mismatch"}
+                R == {x \in X : x.res = ev.res}          \* allowed outcomes with the observed result
+            IN IF \E x \in R : T[x] = t THEN base
+               ELSE IF R = {} THEN base \cup {"result"}
+               ELSE LET parts == (IF \E x \in R : T[x].sel = t.sel THEN {} ELSE {"selected"})
+                                 \cup (IF \E x \in R : T[x].act = t.act THEN {} ELSE {"active"})
+                                 \cup (IF \E x \in R : SameVersions(T[x], t) THEN {} ELSE {"versions"})
+                                 \cup (IF \E x \in R : T[x].files = t.files THEN {} ELSE {"files"})
+                                 \cup (IF \E x \in R : SameFlags(T[x], t) THEN {} ELSE {"registry-flags"})
+                    IN base \cup (IF parts = {} THEN {"state"} ELSE parts)
 
 After(s, ev) ==
     IF ev.op.op = "Purge" THEN FromObs(s, ev.obs)
